@@ -53,7 +53,7 @@ fn make(d: &[u64]) -> AnimFile {
         let entries = sections.iter().map(|s| AnimEntry { id: s.header.id, offset: 0, size: 0 }).collect();
         AnimFile {
             format: AnimFormat::Modern,
-            metadata: AnimMetadata::Modern { header: AnimHeader { magic: ANIM_MAGIC, version: 1, id_count: ns as u32, unknown: 0, anim_entry_offset: 20 }, entries },
+            metadata: AnimMetadata::Modern { header: AnimHeader { magic: ANIM_MAGIC, version: 1, id_count: ns as u32, unknown: 0x5A5A_0001, anim_entry_offset: 20 }, entries },
             sections,
         }
     } else {
